@@ -17,8 +17,16 @@ Tolerances are derived, not tuned (see `_bounds`):
   * totals are compared with R's exact totals evaluated *at the twin's own converged point*, so no sensitivity
     of the derivative to the state error enters; the tolerance is the shared 1e-8 (direct) / 1e-6 (iterative)
     rule, widened by round-off x condition number of the scaled system and by the physical meaning of the
-    linear solvers' atol on scaled linear residuals.
-Cases where a solver in either twin reports non-convergence are not judged.
+    linear solvers' atol on scaled linear residuals (during compute_totals the iterative linear solvers run
+    with rtol off and an atol set just above the round-off floor of the scaled system, computed from R).
+Cases where a solver in either twin reports non-convergence are not judged (the run is aborted at the first
+report).  A plain twin that disagrees with R is reported under its own `plain-twin-...` key.
+
+Recorded defects: five narrow classes of scaling assignment / solver stack are known to break (see
+`avoid_known`, `known_taints`); each has its own mechanism key, the generator keeps them in a minority of the
+affected models and moves the other models just outside the class, and a totals discrepancy in a cell whose
+precondition for one of them holds is keyed by that mechanism.  Everything else is keyed by observable, solver
+cell and scaling features.
 """
 import copy
 import os
@@ -39,7 +47,8 @@ RULE = ('random model specs (explicit/implicit harness components, nested groups
         'units, feedback loops) x random scaling assignment (ref, ref0, res_ref; scalar/array; negative; ref<ref0; '
         'on states and on IndepVarComp outputs) x cells {root nonlinear solver: generated, Newton (plain, Armijo, '
         'BoundsEnforce, solve_subsystems), Broyden, NLBGS (plain, Aitken, use_apply_nonlinear), NLBJ} x {root '
-        'linear: generated, DirectSolver dict/dense/csc, ScipyKrylov (+LNBGS precon), LNBGS, LNBJ} x {fwd, rev}; '
+        'linear: generated, LinearRunOnce, DirectSolver dict/dense/csc, ScipyKrylov (+LNBGS precon), LNBGS, LNBJ} x '
+        '{fwd, rev}; '
         'distinct = (scaling features, wiring features of scaled sources, solver tree, cell); non-trivial = the '
         'scaled twin really has output or residual scaling active and every solver of both twins converged')
 MIN_JUDGED = {'quick': 300, 'thorough': 8000}
@@ -60,9 +69,12 @@ ASSUMPTIONS = [
     'R (omv/ref/flatmodel.py) is exact and scaling-agnostic; its Jacobian is re-validated by complex step per case',
     'a case is judged only if no solver of either twin reported non-convergence (preconditioner sweeps with a '
     'fixed iteration count are not convergence claims and are ignored) and cond(dF/du) <= 1e8',
-    'nonlinear solvers: rtol off, atol=1e-11 on the scaled norm; linear: rtol off, atol=1e-12; tolerances of the '
-    'oracle are derived from these, |res_ref|, |ref-ref0| and |J^-1| (cases whose derived bound exceeds 1e-6 '
-    'relative, or where the linearisation guard fails, are discarded and counted)',
+    'nonlinear solvers: rtol off, atol=1e-11 on the scaled norm; iterative linear solvers during compute_totals: '
+    'rtol off, atol = max(1e-12, 100 x round-off floor of the scaled system); tolerances of the oracle are derived '
+    'from these, |res_ref|, |ref-ref0| and |J^-1| (cases whose derived bound exceeds 1e-6 relative, or where the '
+    'linearisation guard fails, are discarded and counted)',
+    'models hitting a recorded defect class are sampled at a reduced rate (P_KNOWN); a totals discrepancy in a cell '
+    'that satisfies the precondition of a recorded defect is attributed to that defect',
     'no bounds on outputs (bounds x scaling is C10), no driver scaling (C20), no MPI',
 ]
 SHARD_TIMEOUT = {'quick': 1200, 'thorough': 5400}
@@ -871,7 +883,10 @@ def _run_cell(G, fm, spec, sspec, feats, scal, unscal, ustar, p, Ju, Jp, cell, c
     fkey = '+'.join(feats)
 
     def K(what):
-        return '%s:nl=%s:ln=%s:mode=%s:scaling=%s' % (what, nl_name, ln_name, mode, fkey)
+        # observable first, then what matters most for it, so that prefix wildcards in known_findings are useful
+        if 'totals' in what:
+            return '%s:ln=%s:mode=%s:nl=%s:scaling=%s' % (what, ln_name, mode, nl_name, fkey)
+        return '%s:nl=%s:scaling=%s' % (what, nl_name, fkey)
 
     # ---- derived bounds (from R and the spec only)
     ofi = np.concatenate([np.arange(*fm.soff[o]) + fm.nparam for o in of])
